@@ -7,7 +7,7 @@ from __future__ import annotations
 import collections
 import random
 
-from ..common import Report, main_wrapper, scratch, seed, run_tlc, MachineryError, tlc_failure_excerpt
+from ..common import Report, main_wrapper, scratch, eff_seed, run_tlc, MachineryError, tlc_failure_excerpt
 from ..cunits import run_cjobs
 from .. import annotjobs
 from .args import parse
@@ -24,7 +24,7 @@ def main():
         asgs = [x for x in r.records if "prec" in x]
         asgs.sort(key=lambda x: str(sorted(x["prec"].items())) + str(sorted(x["mem"].items())) + str(sorted(x["win"].items())))
         if quick:
-            rng = random.Random(f"c15/{seed()}")
+            rng = random.Random(f"c15/{eff_seed()}")
             cons = [x for x in asgs if x["ok"]]
             # fixed core: all consistent ones, every single-rule violation class; plus a seed-dependent sample
             by = collections.defaultdict(list)
@@ -40,7 +40,7 @@ def main():
             asgs = pick
         out = annotjobs.run(asgs, d)
         # valid C of ordinary compiles: corpus + derived procedures through the strict gcc flags (cc_error events)
-        crecs = run_cjobs(["harness.corpus.basic", "harness.corpus.memory", "harness.corpus.configs"], seed(),
+        crecs = run_cjobs(["harness.corpus.basic", "harness.corpus.memory", "harness.corpus.configs"], eff_seed(),
                           cap=1, workdir=d, derived=2 if quick else 12, sanitize=False, opt="-O0")
     stat = collections.Counter()
     for k, x in enumerate(asgs):
